@@ -4,7 +4,7 @@ CFG = dict(
     level="proof",
     lean_modules=["ElysModel.Props.C13"],
     props_files=["ElysModel/Props/C13.lean"],
-    runs=[hist_run(), hist_run(focus="perp.", sq=4, st=6)],
+    runs=[hist_run(), hist_run(focus="perp.", sq=4, st=6), gentrip_run()],
     rule=HIST_RULE,
     trusted_base=COMMON_TB + ["per reward denom the block's flows (revenue in, stakers/protocol/provider out, claims paid, incentive funding) are x/bank transfers to/from the "
                               "masterchef module account, classified by recipient; the amount credited is the observed change of the sum of claimable amounts (W)"],
